@@ -543,6 +543,7 @@ func main() {
 	}
 	c.Floor = c.N(20000, 200000)
 	c.Extra("parts", map[string]any{"patch_cases": parts[0].n, "law_cases": parts[1].n, "composer_cases": parts[2].n})
+	_ = os.RemoveAll(workDir) // Finish exits the process, deferred calls do not run
 	c.Finish()
 }
 
